@@ -138,10 +138,15 @@ NESTED3_NAMES = [
 ]
 
 
+LONG_CALLER = "wątek-" + "é€" * 29
+
+
 def threads_set(tier):
     """C08: flat profiles x 3 caller names with thread-identity checks; nested spawn macros (names only)."""
     out = []
     callers = ("main", "w7", None)
+    # a caller whose name is long and not ASCII (2- and 3-byte characters, 150 bytes): the composed thread name is the whole name
+    callers_long = callers + (LONG_CALLER,)
     profs = list(fp.profiles(3, 3))
     if tier != "quick":
         profs += list(fp.profiles(4, 2, nmin=4)) + [(1, 2, 3, 4), (4, 4), (4, 1, 4), (2, 2, 2, 2, 2)]
@@ -152,7 +157,7 @@ def threads_set(tier):
             if tier == "quick" and len(ds) == 3 and max(ds) == 3 and mac in ("spawn", "try_spawn") and ds.count(3) > 1:
                 continue
             p = fp.build(mac, ds, init_ev=True, flavour="Opt" if mac.startswith("try") else None)
-            out.append(tprog("%s/%s" % (mac, fp.pname(ds)), p, ds, callers=callers, check_threads=True))
+            out.append(tprog("%s/%s" % (mac, fp.pname(ds)), p, ds, callers=callers_long if (len(ds) == 2 or tier != "quick") else callers, check_threads=True))
             if len(ds) in (2, 3) and (tier != "quick" or max(ds) <= 2):
                 # initial values written as if / match / unsafe / loop expressions (one form per branch): evaluated by the branch's thread
                 p = fp.build(mac, ds, init_ev=True, init_form=("if", "match", "unsafe", "loop")[len(ds) % 2:][:3], flavour="Opt" if mac.startswith("try") else None)
